@@ -383,6 +383,7 @@ func cmdVacuity(args []string) {
 	fs := flag.NewFlagSet("vacuity", flag.ExitOnError)
 	repo := fs.String("repo", "/repo", "repository")
 	fnre := fs.String("fn", "", "function regexp")
+	explain := fs.Int("explain", -1, "print an unsat core for this block (use with -fn)")
 	fs.Parse(args)
 	e, err := loadEngine(*repo)
 	if err != nil {
@@ -394,6 +395,48 @@ func cmdVacuity(args []string) {
 		re = regexp.MustCompile(*fnre)
 	}
 	vcs := generateAll(e)
+	if *explain >= 0 {
+		for _, vc := range vcs {
+			if re == nil || !re.MatchString(e.fname(vc.fn)) {
+				continue
+			}
+			var b, body strings.Builder
+			b.WriteString("(set-option :produce-unsat-cores true)\n(set-option :timeout 20000)\n")
+			for _, d := range vc.decls {
+				body.WriteString(d + "\n")
+			}
+			var facts []string
+			for _, it := range vc.items {
+				if it.probe || it.ob != nil {
+					continue
+				}
+				fmt.Fprintf(&body, "(assert (! %s :named f%d))\n", it.fact, len(facts))
+				facts = append(facts, it.fact)
+			}
+			fmt.Fprintf(&body, "(assert %s)\n(check-sat)\n(get-unsat-core)\n", vc.reach[*explain])
+			bs := body.String()
+			b.WriteString(prelude)
+			for _, d := range e.structDeclsFor(bs) {
+				b.WriteString(d + "\n")
+			}
+			b.WriteString(bs)
+			cmd := exec.Command("z3-new", "-in", "-smt2")
+			cmd.Stdin = strings.NewReader(b.String())
+			o, _ := cmd.Output()
+			fmt.Println(string(o))
+			for _, m := range regexp.MustCompile(`f(\d+)`).FindAllStringSubmatch(string(o), -1) {
+				k, _ := strconv.Atoi(m[1])
+				if k < len(facts) {
+					f := facts[k]
+					if len(f) > 400 {
+						f = f[:400] + "..."
+					}
+					fmt.Printf("f%d: %s\n", k, f)
+				}
+			}
+		}
+		return
+	}
 	type res struct {
 		fn   string
 		dead []string
